@@ -620,11 +620,7 @@ impl<'a> Http2Parser<'a> {
         for (position, (name, value)) in headers.iter().enumerate() {
             let name_str = String::from_utf8_lossy(name).to_string();
             let value_str = String::from_utf8_lossy(value);
-            let value_opt = if value_str.is_empty() {
-                None
-            } else {
-                Some(value_str.to_string())
-            };
+            let value_opt = Some(value_str.to_string());
 
             http_headers.push(HttpHeader {
                 name: name_str,
